@@ -1,6 +1,6 @@
 (* Correspondence harness for C03: a case = (mock model, constructor used?, behaviour table of the
    user functions, history, observed (outcome, events) per step). *)
-From Coq Require Import ZArith.
+From Coq Require Export ZArith.
 From Mk Require Import Lib.Bytes Mock.Testify.
 
 Fixpoint list_eqb {A} (e : A -> A -> bool) (a b : list A) : bool :=
